@@ -271,6 +271,9 @@ func (w *c17World) opParse() {
 		}
 	}
 	copy(ps[off:], src)
+	// (Both callers in the repository hand over the buffer with its full
+	// capacity; a trimmed one is outside the domain - in-place appendix growth
+	// would then run past it.)
 	f, err := w.b.ParseFrame(ps[off:off+len(src)], ps, off)
 	id := w.nextID
 	w.nextID++
@@ -338,6 +341,38 @@ func (w *c17World) opParseMalformed() {
 		w.b.ReturnPooledSlice(ps)
 	}
 	w.malformed = true
+}
+
+// opRawBuffer uses a pooled buffer the way the tun reader and writer do: get it,
+// fill it, hand back a trimmed view of it. ReturnPooledSlice restores the full
+// size and zeroes it, so nothing of it may ever show up again.
+func (w *c17World) opRawBuffer() {
+	c := w.c
+	size := core.OneOf(c, "raw.size", 100, 600, 1500, 1600, 5000, 9000)
+	ps := w.b.GetPooledSlice(size)
+	if ps == nil {
+		return
+	}
+	for i, v := range ps {
+		if v != 0 {
+			c.Fatalf("GetPooledSlice returned recycled memory that is not zeroed (byte %d = %#x)", i, v)
+		}
+	}
+	id := w.nextID
+	w.nextID++
+	fill := c17Fill(len(ps), id)
+	copy(ps, fill)
+	keep := c.Int("raw.trim", 0, len(ps))
+	w.log("rawBuffer #%d: %d bytes filled, returned trimmed to %d", id, len(ps), keep)
+	w.b.ReturnPooledSlice(ps[:keep])
+	// Whatever comes out of that pool next is clean.
+	again := w.b.GetPooledSlice(size)
+	for i, v := range again {
+		if v != 0 {
+			c.Fatalf("after a filled buffer was returned as a %d-byte view, GetPooledSlice hands out memory that is not zeroed (byte %d = %#x)", keep, i, v)
+		}
+	}
+	w.b.ReturnPooledSlice(again)
 }
 
 func (w *c17World) pick(label string) *c17Frame {
@@ -576,7 +611,7 @@ func c17Run(c *core.Case, maxOps int) {
 	n := c.Int("ops", 1, maxOps)
 	for i := 0; i < n; i++ {
 		var step string
-		switch c.Weighted("op", 0, 22, 10, 14, 8, 14, 10, 8, 14, 8) {
+		switch c.Weighted("op", 0, 22, 10, 14, 8, 14, 10, 8, 14, 8, 5) {
 		case 1:
 			w.opNew()
 			step = "new"
@@ -601,6 +636,9 @@ func c17Run(c *core.Case, maxOps int) {
 		case 9:
 			w.opParseMalformed()
 			step = "parseMalformed"
+		case 10:
+			w.opRawBuffer()
+			step = "rawBuffer"
 		default:
 			w.opRelease()
 			step = "release"
